@@ -240,6 +240,10 @@ def evaluate_expression(expr, options=None, locals_=None, builtins=True):
             except BareScriptRuntimeError:
                 raise
             except Exception as error: # pylint: disable=broad-exception-caught
+                # A syntax error in an included script (run by a script function) is not a failed call
+                if isinstance(error, BareScriptParserError) and error.prefix is not None:
+                    raise
+
                 # Log and return null
                 if options is not None and 'logFn' in options and options.get('debug'):
                     options['logFn'](f'BareScript: Function "{func_name}" failed with error: {error}')
